@@ -8,6 +8,24 @@ CLAIMED = {
  "C01": dict(tech="deterministic simulation: seeded schedule search over the array-backend seam (SimKind), refinement against a reference gluing up to isomorphism, minimised replay",
              text="Exploration by deterministic simulation: ~0.5M (quick) / ~12M (thorough) seeded runs, each composing a generated pair on the simulated device under control, Vec and 1-4 perturbed schedules and comparing the result up to isomorphism with an independently computed pushout. A clean batch is evidence, not proof; this is the right level because the property quantifies over all pairs and (through C20) all conforming backends, which only sampling reaches here.",
              ref="§5 C01"),
+ "C03": dict(tech="deterministic simulation: both sides of each SMC law computed under seeded device schedules (SimKind), compared by an isomorphism decision procedure",
+             text="Exploration by deterministic simulation: seeded runs, each evaluating associativity, units, interchange, naturality / self-inverse of the symmetry and both hexagons on a generated composable triple + pair + object lists, on control, Vec and perturbed device schedules; the two sides of a law are different computations whose numberings differ under perturbed schedules, and are compared up to isomorphism. Evidence, not proof.",
+             ref="§5 C03"),
+ "C04": dict(tech="deterministic simulation: dagger/spider laws under seeded device schedules (SimKind) against reference cospan composition; corrupted leg codomains as data faults at the constructor",
+             text="Exploration by deterministic simulation: dagger (exact swap, involution, contravariance, over tensor), spider fusion against reference cospan composition, identity/symmetry as spiders, spider/half_spider acceptance under corrupted leg codomains; strict versions on control, Vec and perturbed schedules, lax versions on the Vec device. Evidence, not proof.",
+             ref="§5 C04"),
+ "C15": dict(tech="deterministic simulation: layering under seeded device schedules (sort ties, sparse key order) with a kernel-launch watchdog for bounded liveness; oracle = reference dependency graph",
+             text="Exploration by deterministic simulation: layer() and layered_operations() on dense, layered and cyclic generated diagrams under control, Vec and perturbed schedules; every call must return within a launch budget (logical clock) and without panic; layers are checked against a reference dependency graph (visited flags, strict increase, from 0, as many layers as the longest chain, grouped form exactly once). Evidence, not proof.",
+             ref="§5 C15"),
+ "C16": dict(tech="deterministic simulation: evaluation with a simulator-owned apply callback (recorded batch history, exactly-once and order checks), seeded device schedules and renumberings; oracle = reference interpreter",
+             text="Exploration by deterministic simulation: generated single-writer acyclic circuits (and cyclic diagrams for refusal) evaluated under renumberings x device schedules x inputs; the simulator owns the callback party and checks the recorded history (every hyperedge once, right arguments, dependency-respecting batches) besides the result. Evidence, not proof.",
+             ref="§5 C16"),
+ "C17": dict(tech="deterministic simulation: predicates under seeded device schedules in two build profiles (debug assertions/overflow checks on and off), panic = violation, launch watchdog; oracle = DFS and counting",
+             text="Exploration by deterministic simulation: is_acyclic, is_monogamous, in/out degree on generated diagrams incl. isolated/dangling nodes, repeated incidences and parallel connections, on control, Vec and perturbed schedules, in both build profiles; totality (no panic, returns within budget) and equality with DFS / counting definitions. Evidence, not proof.",
+             ref="§5 C17"),
+ "C18": dict(tech="deterministic simulation: morphism validation / convexity under seeded device schedules; one data corruption per run at the validation boundary; oracle = brute-force definitions",
+             text="Exploration by deterministic simulation: valid morphisms built by construction, half of them with exactly one corruption (label, incidence order, map entry, mistyped map), decided by HypergraphArrow::new / is_monomorphism / is_convex_subgraph on control, Vec and perturbed schedules, against brute-force definitions (accept iff all conditions hold, named condition really fails, convexity via reflexive-transitive closure). Evidence, not proof.",
+             ref="§5 C18"),
 }
 NOTE = "Trusted: the harness's plain model, reference operations and isomorphism procedure (cross-checked by selftest), and that SimKind's outcome sets cover the four documented open choices. Sizes are small (<= ~10 nodes)."
 
